@@ -171,6 +171,30 @@ Theorem C02_bad_md5_keeps_previous : forall s b m data cp,
 Proof. exact bad_md5_keeps_previous. Qed.
 Print Assumptions C02_bad_md5_keeps_previous.
 
+(* an upload without object name is refused with 400 by all three upload paths, in every state,
+   and changes nothing *)
+Theorem C02_empty_name_rejected : forall s,
+  (forall b ct data cp, handle s (RUploadMedia b [] ct data cp) = (s, err 400))
+  /\ (forall b m data cp, um_name m = [] -> handle s (RUploadMultipart b m data cp) = (s, err 400))
+  /\ (forall b bad m cp, um_name m = [] -> handle s (RResumableInit b bad m cp) = (s, err 400)).
+Proof. exact empty_name_rejected. Qed.
+Print Assumptions C02_empty_name_rejected.
+
+(* compose and copy refuse a destination name that parses to "" likewise *)
+Theorem C02_empty_destination_rejected : forall s,
+  (forall b dst bad srcs dm cp, compose_dst dst = Some [] ->
+     handle s (RCompose b dst bad srcs dm cp) = (s, err 400))
+  /\ (forall b1 n1 b2 n2, copy_dst n1 b2 n2 = Some [] ->
+     handle s (RCopy b1 n1 b2 n2) = (s, err 400)).
+Proof. exact empty_destination_rejected. Qed.
+Print Assumptions C02_empty_destination_rejected.
+
+(* hence no bucket of a reachable state holds an object with the empty name *)
+Theorem C02_reachable_names_nonempty : forall rs b bk,
+  get_bucket (fst (run init_state rs)) b = Some bk -> ~ In [] (map fst bk).
+Proof. exact reachable_names_nonempty. Qed.
+Print Assumptions C02_reachable_names_nonempty.
+
 (* ---- until overwritten or deleted ---- *)
 
 Theorem C02_other_objects_untouched : forall s r b' n',
